@@ -29,14 +29,15 @@ import (
 const caseTimeout = 120 * time.Second
 
 type supervisor struct {
-	root    string
-	repo    string
-	cmd     *exec.Cmd
-	in      *bufio.Writer
-	inPipe  *os.File
-	lines   chan string // lines from the child; closed when it goes away
-	starts  int
-	errFile *os.File
+	root     string
+	repo     string
+	cmd      *exec.Cmd
+	in       *bufio.Writer
+	inPipe   *os.File
+	lines    chan string // lines from the child; closed when it goes away
+	starts   int
+	errFile  *os.File
+	policies bool // the child runs the engine in POLICIES mode (LUNAR_STREAMS_ENABLED=false)
 }
 
 func newSupervisor() *supervisor {
@@ -62,9 +63,26 @@ func (s *supervisor) start() {
 	must(os.WriteFile(l.defMet, reduceMetrics(def), 0o644))
 	must(os.WriteFile(filepath.Join(filepath.Dir(l.defMet), "metrics.full.yaml"), def, 0o644))
 	must(os.WriteFile(filepath.Join(s.root, "discovery.json"), []byte("{}"), 0o644))
-	env := append(os.Environ(),
-		childEnv+"=1", rootEnv+"="+s.root,
-		"LUNAR_STREAMS_ENABLED=true",
+	mode, streams := "1", "true"
+	if s.policies {
+		mode, streams = "policies", "false"
+		must(os.WriteFile(filepath.Join(s.root, "policies.yaml"), policiesYAML("0"), 0o644))
+	}
+	var base []string
+	for _, e := range os.Environ() {
+		if !strings.HasPrefix(e, "LUNAR_STREAMS_ENABLED=") {
+			base = append(base, e)
+		}
+	}
+	env := append(base,
+		childEnv+"="+mode, rootEnv+"="+s.root,
+		"LUNAR_STREAMS_ENABLED="+streams,
+		"LUNAR_PROXY_POLICIES_CONFIG="+filepath.Join(s.root, "policies.yaml"),
+		"LUNAR_PROXY_CONFIG_DIR="+s.root,
+		// the diagnosis fail-safe watcher of policies mode wants these
+		"DIAGNOSIS_FAILSAFE_MIN_SEC_BETWEEN_CALLS=30", "DIAGNOSIS_FAILSAFE_CONSECUTIVE_N=3",
+		"DIAGNOSIS_FAILSAFE_MIN_STABLE_SEC=60", "DIAGNOSIS_FAILSAFE_COOLDOWN_SEC=60",
+		"DIAGNOSIS_FAILSAFE_HEALTHY_SESSION_RATE=0", "DIAGNOSIS_FAILSAFE_HEALTHY_MAX_LAST_SESSION_SEC=30",
 		"HAPROXY_MANAGE_ENDPOINTS_PORT="+freePort(),
 		"LUNAR_HEALTHCHECK_PORT="+freePort(),
 		"LUNAR_PROXY_FLOW_DIRECTORY="+l.flows,
@@ -282,18 +300,21 @@ func childLoop() {
 			}
 			ops = append(ops, strings.TrimRight(l, "\r\n"))
 		}
-		before := 0
-		if theWorld != nil {
-			before = theWorld.transportErrors
+		before := transportErrorCount()
+		var outs []string
+		var st *caseStats
+		if os.Getenv(childEnv) == "policies" {
+			outs, st = runPoliciesCase(ops)
+		} else {
+			outs, st = runCase(ops)
 		}
-		outs, st := runCase(ops)
 		for _, k := range st.counts {
 			fmt.Fprintf(out, "#c %s\n", k)
 		}
 		if st.nontrivial {
 			out.WriteString("#nt\n")
 		}
-		dirty := theWorld != nil && theWorld.transportErrors != before
+		dirty := transportErrorCount() != before
 		if dirty {
 			out.WriteString("#restart\n")
 		}
@@ -344,4 +365,15 @@ func reduceMetrics(full []byte) []byte {
 	}
 	out := append(append([]string{}, lines[:last]...), lines[stop:]...)
 	return []byte(strings.Join(out, "\n"))
+}
+
+func transportErrorCount() int {
+	n := 0
+	if theWorld != nil {
+		n += theWorld.transportErrors
+	}
+	if thePWorld != nil {
+		n += thePWorld.transportErrors
+	}
+	return n
 }
